@@ -2,6 +2,7 @@ import RgVerif.Lemmas.LineBufferFill
 import RgVerif.Lemmas.ReadByLineTop
 import RgVerif.Lemmas.ReadByLineGTop
 import RgVerif.Lemmas.ReadByLineCTop
+import RgVerif.Lemmas.CoreFindContract
 /-
 C02 — results do not depend on how the input bytes reach the searcher.
 Property theorems about the roll buffer (`line_buffer.rs`): for EVERY capacity (0 included), every
@@ -181,6 +182,55 @@ theorem C02_heap_limit (cfg : Searcher.Config) (m : MatcherI) (σ : Script) (inp
   · exact Or.inl h
   · exact Or.inr ⟨halloc h.1, h.2.1, h.2.2⟩
 
+/-- **C02 on the FAST path of `Core`, under the matcher contract** (`LineSafe`, searcher-core's
+`Lemmas/SearcherFind.lean` / `Spec/LineSafe.lean`: the answers of `find_candidate_line` are sound
+for the lines of the buffer -- what C01/C11 establish for the regex matcher, with findings F1/F2/F24
+as its stated exceptions): if the matcher is line safe on every window of the input (the input
+itself included), then for every configuration with detection off -- contexts, inversion,
+`stop_on_nonmatch`, line numbers -- every read script and capacity, and every sink script that never
+answers "stop", `ReadByLine::run` makes exactly the callbacks of `SliceByLine::run` and returns the
+same `Ok` / `Err`, whatever mix of `match_by_line_fast` / `match_by_line_fast_invert` /
+`match_by_line_slow` calls the two strategies make.  The sink answer "stop" is the stated
+exception: then the two agree on every callback except the byte count of `finish` (finding F10b,
+`Core.pos` is not the end of the stopping line on the fast path).  Proof: call by call the fast path
+equals the slow path (`Lemmas/CoreFastSlow.lean`: lazy after-context = per-line after-context, runs
+of inverted matches, frames for `pos` / `has_matched`), lifted to both strategies
+(`Lemmas/ReadByLineFast.lean`), then `C02`. -/
+theorem C02_fast (cfg : Searcher.Config) (m : MatcherI) (σ : Script) (hbin : cfg.binary = .none)
+    (lbcfg : LineBuffer.Config) (hlt : lbcfg.lineterm = cfg.lineTerm.asByte) (hb : lbcfg.binary = .none)
+    (hal : lbcfg.alloc = .eager) (rdr : Reader)
+    (hsafe : ∀ a n, Searcher.LineSafe cfg m (window rdr.data a n) (linesOf cfg m (window rdr.data a n)))
+    (hns : ∀ i, σ i ≠ .stop) (hz : NoZero rdr.script) :
+    (readByLine cfg m σ lbcfg rdr).events = (sliceByLine cfg m σ rdr.data).events ∧
+      (readByLine cfg m σ lbcfg rdr).result = (sliceByLine cfg m σ rdr.data).result :=
+  readByLine_eq_sliceByLine_lineSafe m σ hbin lbcfg hlt hb hal rdr hsafe hns hz
+
+/-- **The stated exception, made exact (finding F10b)**: for EVERY sink script -- stop answers
+included -- under the same matcher contract the two strategies return the same result and make the
+same callbacks except for the byte count that `finish` reports. -/
+theorem C02_fast_any_sink (cfg : Searcher.Config) (m : MatcherI) (σ : Script) (hbin : cfg.binary = .none)
+    (lbcfg : LineBuffer.Config) (hlt : lbcfg.lineterm = cfg.lineTerm.asByte) (hb : lbcfg.binary = .none)
+    (hal : lbcfg.alloc = .eager) (rdr : Reader)
+    (hsafe : ∀ a n, Searcher.LineSafe cfg m (window rdr.data a n) (linesOf cfg m (window rdr.data a n)))
+    (hz : NoZero rdr.script) :
+    (readByLine cfg m σ lbcfg rdr).events.map Event.noCount = (sliceByLine cfg m σ rdr.data).events.map Event.noCount ∧
+      (readByLine cfg m σ lbcfg rdr).result = (sliceByLine cfg m σ rdr.data).result :=
+  readByLine_eq_sliceByLine_lineSafe_any m σ hbin lbcfg hlt hb hal rdr hsafe hz
+
+/-- `C02_fast` through the strategy selection of `search_reader` / `search_slice`. -/
+theorem C02_fast_search (cfg : Searcher.Config) (m : MatcherI) (σ : Script) (inp : Bytes) (script : List Step)
+    (cap : Option Nat) (hbin : cfg.binary = .none) (hml : cfg.multiLine = false)
+    (hsafe : ∀ a n, Searcher.LineSafe cfg m (window inp a n) (linesOf cfg m (window inp a n)))
+    (hns : ∀ i, σ i ≠ .stop) (hz : NoZero script) :
+    (searchReader cfg m σ none cap ⟨inp, script, 0⟩).events = (searchSlice cfg m σ inp).events := by
+  have hmm : multiLineWithMatcher cfg m = false := by simp [multiLineWithMatcher, hml]
+  unfold searchReader searchSlice
+  simp only [hmm, Bool.false_eq_true, if_false]
+  have := C02_fast cfg m σ hbin (lineBufferConfig cfg none cap) rfl
+    (by simp [lineBufferConfig, hbin, BinaryDetection.toLB]) (by simp [lineBufferConfig])
+    (⟨inp, script, 0⟩ : Reader).withBomPeek hsafe hns (withBomPeek_noZero _ hz)
+  exact this.1
+
 /-- **C02 without context lines** (the closed-form route, kept: it also gives the event stream as
 a function of the lines, `specRun`): for every configuration without context lines (`-A`, `-B`, `-C` = 0;
 passthru, inversion, `stop_on_nonmatch`, line numbers on/off, any terminator), on the slow path,
@@ -250,6 +300,24 @@ example :
       (searchSlice cfg m allCont inp).events
         = [.begin, .matched (some 1) 0 [120, 10], .context .after (some 2) 2 [97, 10], .contextBreak,
            .matched (some 4) 11 [120, 10], .finish 13 none] := by
+  refine ⟨by decide, by decide, by decide⟩
+
+/-- Non-vacuity of `C02_fast`: a matcher that announces the searcher's terminator (so `Core` takes the
+fast path), `-A1 -B1`, capacity 1, 1-byte reads: the fast loop finds the two matching lines across
+many rolls, delivers the before / after context lazily, and the reader's callbacks are those of the
+slice searcher. -/
+example :
+    let cfg : Searcher.Config := { beforeContext := 1, afterContext := 1 }
+    let m : MatcherI := { MatcherI.ofFindAt (fun h at_ =>
+      ((h.drop at_).findIdx? (· == 120)).map fun i => ⟨at_ + i, at_ + i + 1⟩) with lineTerminator := some (.byte 10) }
+    let inp : Bytes := [97, 10, 98, 10, 99, 10, 120, 10, 100, 10, 101, 10, 102, 10, 120, 10]
+    isLineByLineFast cfg m (Core.new cfg true) = true ∧
+      (readByLine cfg m allCont ⟨1, 10, .eager, .none⟩ ⟨inp, [.ret 1, .intr, .ret 1], 0⟩).events
+        = (sliceByLine cfg m allCont inp).events ∧
+      (sliceByLine cfg m allCont inp).events
+        = [.begin, .context .before (some 3) 4 [99, 10], .matched (some 4) 6 [120, 10],
+           .context .after (some 5) 8 [100, 10], .contextBreak, .context .before (some 7) 12 [102, 10],
+           .matched (some 8) 14 [120, 10], .finish 16 none] := by
   refine ⟨by decide, by decide, by decide⟩
 
 /-- Non-vacuity of `C02_partial`: passthru, NUL-free text with LF inside... a capacity-1 buffer,
